@@ -137,7 +137,7 @@ func genDecData(r *rand.Rand, key, iv []byte) []byte {
 	blocks := vh.Bytes(r, 16*nb)
 	n := len(blocks)
 	switch r.IntN(9) {
-	case 0: // valid padding k
+	case 0, 6, 7: // valid padding k
 		k := 1 + r.IntN(16)
 		for i := n - k; i < n; i++ {
 			blocks[i] = byte(k)
